@@ -92,6 +92,12 @@ func (p *c03) Gen(seed uint64, i int, tier string) (any, bool) {
 			}
 			c := m.contentAt(j)
 			c.Fail = true
+			c.ErrKind = sim.Pick(r, ErrKinds)
+			if r.Chance(1, 2) {
+				// the producer fails the first time only; the caller then retries the message
+				c.FailOnCall = 1
+				sc.Resend = true
+			}
 			switch r.Intn(3) {
 			case 0:
 				c.FailAt = 0
@@ -287,7 +293,13 @@ func (p *c03) Exec(t *testing.T, scAny any) Outcome {
 			order = append(order, m.token)
 		}
 	}
-	commits := map[string]int{}
+	commits := map[string]int{}      // commits during the first operation
+	recommits := map[string]int{}    // commits during the retry
+	resendFrom := int(^uint(0) >> 1) // kernel step at which the retry started
+	if run.ResendCall != nil {
+		resendFrom = run.ResendCall.StartStep
+		out.stat("probe.failed-messages-resent", len(run.Resent))
+	}
 	for _, c := range h.Commits {
 		tok := strings.TrimPrefix(c.From.Local, "sender-")
 		m := msgs[tok]
@@ -295,7 +307,11 @@ func (p *c03) Exec(t *testing.T, scAny any) Outcome {
 			out.violate("C03:commit-unknown-envelope", "the server committed a message with envelope sender %q, which belongs to no message of the batch", c.From.Raw)
 			continue
 		}
-		commits[tok]++
+		if c.Step >= resendFrom {
+			recommits[tok]++
+		} else {
+			commits[tok]++
+		}
 		match := false
 		for _, ref := range m.refs {
 			if bytes.Equal(c.Content, ref) {
@@ -338,36 +354,50 @@ func (p *c03) Exec(t *testing.T, scAny any) Outcome {
 			out.violate("C03:committed-twice", "message %s was committed %d times in one call", tok, n)
 		}
 	}
+	for tok, n := range recommits {
+		if n > 1 {
+			out.violate("C03:committed-twice", "message %s was committed %d times in the retry call", tok, n)
+		}
+	}
 	// IsDelivered vs. the server's verdict
-	delivered := int64(0)
-	if len(run.Env.Pipes) > 0 {
-		delivered = run.Env.Pipes[0].S2CDelivered()
+	deliveredOn := func(conn int) int64 {
+		if conn >= 1 && conn <= len(run.Env.Pipes) {
+			return run.Env.Pipes[conn-1].S2CDelivered()
+		}
+		return 0
 	}
 	for _, tok := range order {
 		m := msgs[tok]
-		var eod *refsmtpd.EOD
+		anyAck, ackSeen := false, false
+		var last *refsmtpd.EOD
 		for i := range h.EODs {
-			if strings.TrimPrefix(h.EODs[i].From.Local, "sender-") == tok {
-				eod = &h.EODs[i]
+			e := &h.EODs[i]
+			if strings.TrimPrefix(e.From.Local, "sender-") != tok {
+				continue
+			}
+			last = e
+			if e.Replied && e.Code/100 == 2 {
+				anyAck = true
+				if e.EndOff <= deliveredOn(e.Conn) {
+					ackSeen = true
+				} else {
+					out.stat("probe.reply-lost-after-commit", 1)
+				}
 			}
 		}
-		ack := eod != nil && eod.Replied && eod.Code/100 == 2
-		if m.st.Delivered && !ack {
+		if m.st.Delivered && !anyAck {
 			what := "the server never saw its end-of-data"
-			if eod != nil {
-				what = fmt.Sprintf("the server answered its end-of-data with %d (replied: %v)", eod.Code, eod.Replied)
+			if last != nil {
+				what = fmt.Sprintf("the server answered its end-of-data with %d (replied: %v)", last.Code, last.Replied)
 			}
 			out.violate("C03:delivered-without-2yz", "message %s reports IsDelivered()==true but %s", tok, what)
 		}
-		if ack && eod.EndOff <= delivered && !m.st.Delivered {
-			out.violate("C03:acknowledged-but-not-delivered", "the server acknowledged the end-of-data of message %s with %d and the client received that reply completely, but IsDelivered()==false (error: %s)", tok, eod.Code, m.st.ErrText)
-		}
-		if ack && eod.EndOff > delivered {
-			out.stat("probe.reply-lost-after-commit", 1)
+		if ackSeen && !m.st.Delivered {
+			out.violate("C03:acknowledged-but-not-delivered", "the server acknowledged the end-of-data of message %s with 2yz and the client received that reply completely, but IsDelivered()==false (error: %s)", tok, m.st.ErrText)
 		}
 		if m.fired {
 			out.stat("fault.fired.producer_failure", 1)
-			if m.st.Delivered {
+			if m.st.Delivered && !run.Resent[tok] {
 				out.violate("C03:producer-failed-but-delivered", "a content producer of message %s failed during the send, yet IsDelivered()==true", tok)
 			}
 			if !m.st.HasErr {
